@@ -18,7 +18,7 @@ RULE = ("Hypothesis-generated 3D plotfiles (1-3 levels, any binary layout) x rec
         "without docstring, also passed as a callable) - oracle: the same function on the generator's box data, "
         "bit-exact; (b) built-ins HRR, ENT, SRi, SDi, RRi and 3-argument user recipes with test_assets/drm19.yaml on "
         "plotfiles holding temp + the 21 mass fractions (+ extras) with a physical payload (some with T = 0 / Y = 0 "
-        "cells) - oracle: the Cantera property cell by cell with a plain ct.Solution (1e-10 of the column magnitude). "
+        "cells; one multi-component built-in in five lists every species / reaction of the mechanism in a permuted order) - oracle: the Cantera property cell by cell with a plain ct.Solution (1e-10 of the column magnitude). "
         "Always: taste accepts; mesh = input mesh; kept fields bit-identical; each name matched to its own component; "
         "min/max rows == extrema of the written data. Non-trivial = non-monotone / scattered layout, or kept list "
         "non-empty, or multi-component recipe, or parallel mode.")
@@ -99,6 +99,11 @@ def cases(draw, tier="quick"):
             recipe = dict(kind="builtin", name=name,
                           species=draw(st.lists(st.integers(0, len(SPECIES) - 1), min_size=1, max_size=3, unique=True)),
                           reactions=draw(st.lists(st.integers(0, 83), min_size=1, max_size=3, unique=True)))
+            if draw(st.integers(0, 2 ** 16)) % 5 == 0:
+                # every species / every reaction of the mechanism, in another order than the mechanism's own
+                recipe["species"] = list(draw(st.permutations(list(range(len(SPECIES))))))
+                recipe["reactions"] = list(draw(st.permutations(list(range(84)))))
+                recipe["full"] = True
         else:
             recipe = dict(kind="sarray", which=draw(st.sampled_from(["density", "cp_T"])))
         recipe["pressure"] = draw(st.sampled_from([1.0, 0.5, 5.0]))
@@ -210,6 +215,8 @@ def check_case(case, ctx):
     ctx.label(*labs, "recipe:" + rec["kind"] + (":" + rec["name"] if rec["kind"] == "builtin" else ""),
               "serial" if case["serial"] else "parallel", "kept" if kept_known else "no-kept")
     kw = dict(outfile="out", serial=case["serial"], kept_fields=None if kept is None else case.get("sep", " ").join(kept))
+    if rec.get("full"):
+        ctx.label("builtin:every-species/reaction-permuted")
     if rec.get("cast"):
         ctx.label("recipe-returns:" + rec["cast"])
     if kept is not None and case.get("sep", " ") != " ":
